@@ -59,13 +59,17 @@ def gen_json(r):
     while todo:
         extra.append(todo.pop())
     if extra:
-        if r.random() < 0.5:
+        k = r.random()
+        if k < 0.4:
             doc["more"] = extra
         else:
-            doc["embedded"] = json.dumps({"inner": extra, "deep": {"x": [extra[0]]}})
+            inner = json.dumps({"inner": extra, "deep": {"x": [extra[0]]}})
+            if k < 0.7:
+                inner = inner.replace("/", "\\/")          # the embedded document escapes its slashes (PHP json_encode style)
+            doc["embedded"] = inner
     body = json.dumps(doc, indent=r.choice([None, None, 2]))
     if r.random() < 0.3:
-        body = body.replace("/", "\\/")
+        body = body.replace("/", "\\/") if "\\\\/" not in body else body
     return doc, body, urls
 
 
@@ -104,16 +108,23 @@ def gen_m3u8(r):
         body = "#EXTM3U\n#EXT-X-VERSION:3\n#EXT-X-TARGETDURATION:10\n" + "".join("#EXTINF:9.0,\n%s\n" % s for s in segs) + "#EXT-X-ENDLIST\n"
         return "media", body, segs
     uris, lines = [], ["#EXTM3U"]
-    if r.random() < 0.6:
-        alt = r.choice(["audio/en.m3u8", "http://cdn.example/audio/fr.m3u8"])
-        lines.append('#EXT-X-MEDIA:TYPE=AUDIO,GROUP-ID="aud",NAME="a",DEFAULT=YES,URI="%s"' % alt)
-        uris.append(alt)
-        grp = ',AUDIO="aud"'
-    else:
-        grp = ""
-    for i in range(r.randrange(1, 5)):
+    groups = []          # rendition groups; a variant carries only the renditions of the groups it references
+    for g in range(r.choice([0, 1, 1, 2, 3])):
+        typ = r.choice(["AUDIO", "AUDIO", "SUBTITLES"])
+        gid = "%s%d" % (typ[:3].lower(), g)
+        for j in range(r.randrange(1, 3)):
+            alt = r.choice(["%s/%d.m3u8" % (gid, j), "http://cdn.example/%s/%d.m3u8" % (gid, j)])
+            lines.append('#EXT-X-MEDIA:TYPE=%s,GROUP-ID="%s",NAME="n%d",DEFAULT=%s,URI="%s"' % (typ, gid, j, "YES" if j == 0 else "NO", alt))
+            uris.append(alt)
+        groups.append((typ, gid))
+    nv = r.randrange(max(1, len(groups)), 5 if len(groups) < 4 else 6)
+    for i in range(nv):
         v = r.choice(["v%d/index.m3u8" % i, "http://cdn.example/v%d/index.m3u8" % i])
-        lines += ["#EXT-X-STREAM-INF:BANDWIDTH=%d%s" % (1000000 * (i + 1), grp), v]
+        ref = ""
+        if groups:
+            typ, gid = groups[i % len(groups)]        # every group is referenced by some variant, different variants by different groups
+            ref = ',%s="%s"' % (typ, gid)
+        lines += ["#EXT-X-STREAM-INF:BANDWIDTH=%d%s" % (1000000 * (i + 1), ref), v]
         uris.append(v)
     return "master", "\n".join(lines) + "\n", uris
 
@@ -296,10 +307,16 @@ def run(ctx):
                     kind, ct, miss[:3], res.get("kept"), out[:120]), rp)
         # ---- S3
         pairs = []
-        for k in range(max(4, n // 12)):
-            keys = gen_bucket(r)
-            v2 = k % 2 == 0
-            ps = r.randrange(1, 8)
+        targeted = [({"a/": 0, "a/b/": 0, "a/b/c/": 0, "a/b/c/f1.txt": 5, "a/b/f2.txt": 6, "z.txt": 1}, False, 1),
+                    ({"d/": 0, "e/": 0, "f/": 0, "g.txt": 3, "h/": 0, "i/": 0, "j.txt": 4}, False, 2),
+                    ({"p/": 0, "p/q/": 0, "p/q/r.bin": 9, "s/": 0, "s/t.bin": 9}, True, 1)]
+        for k in range(max(4, n // 12) + len(targeted)):
+            if k < len(targeted):
+                keys, v2, ps = targeted[k]       # folder placeholders: whole pages of zero-size keys
+            else:
+                keys = gen_bucket(r)
+                v2 = k % 2 == 0
+                ps = r.randrange(1, 8)
             got, requests, err = walk_bucket(ctx, h, keys, v2, ps, model_lines, pairs)
             rp = {"domain": "extract-s3", "keys": keys, "v2": v2, "pageSize": ps}
             ctx.case("s3" + json.dumps([sorted(keys.items()), v2, ps]), len(keys) > ps and any("/" in x for x in keys))
